@@ -57,7 +57,9 @@ class DefGen:
         if t == "bool":
             return r.choice(["true", "false", True, False])
         if t == "string":
-            return r.choice(["", "abc", "null"]) if nullable_all else r.choice(["", "abc"])
+            # (string defaults are arbitrary text: quotes, backslashes, non-ASCII inside and outside the BMP)
+            texts = ["", "abc", "abc", "it's", 'say "hi"', "back\\slash", "caf\u00e9", "\u65e5\u672c", "v1-\U0001f680"]
+            return r.choice(texts + ["null"]) if nullable_all else r.choice(texts)
         if t == "float64":
             return r.choice(["0.0", 0.0, "-0.0"])       # integer spellings are outside the supported subset
         if t in ("bytes", "records", "uuid"):
@@ -245,6 +247,7 @@ def crafted() -> list[dict]:
               F("LogAppendTimeMs", "int64", versions="2+", default="-1"),
               F("Gone", "int8", versions="0-1"),
               F("Middle", "string", versions="1-2", default="abc"),
+              F("Motto", "string", versions="1+", default="caf\u00e9 \u65e5\u672c v1-\U0001f680 \"q\" 'a' \\"),
               F("Groups", "[]Zc1Group", nullableVersions="3+", fields=[
                   F("GroupId", "string", entityType="groupId"),
                   F("Members", "[]Zc1Member", versions="1+", fields=[F("Id", "int32"), F("Type", "string", versions="2+", nullableVersions="3+")]),
@@ -262,9 +265,16 @@ def crafted() -> list[dict]:
               F("Tagged", "string", versions="3+", taggedVersions="11+", tag=0, ignorable=True),
               F("Items", "[]Zc2Item", versions="2-11", fields=[F("Key", "string"), F("Value", "bytes", versions="9+", nullableVersions="10+")]),
           ]}
+    # a header-kind definition other than RequestHeader with a `ClientId` string: only the class named
+    # RequestHeader writes its client id in the legacy form
+    d7 = {"type": "header", "name": "Zc7ConnectionHdr", "validVersions": "0-1", "flexibleVersions": "1+",
+          "fields": [F("CorrelationId", "int32"), F("ClientId", "string", nullableVersions="0+"),
+                     F("SessionName", "string", versions="1+")]}
+    d8 = {"type": "data", "name": "Zc8ClientRecord", "validVersions": "0-1", "flexibleVersions": "0+",
+          "fields": [F("ClientId", "string"), F("Seq", "int64")]}
     # the two APIs the header rule singles out (ControlledShutdown = 7, ApiVersions = 18), each with
     # non-flexible and flexible versions
-    out = [d1, d2, d3]
+    out = [d1, d2, d3, d7, d8]
     for key, stem in ((7, "Zc3Shutdown"), (18, "Zc4Versions")):
         for kind in ("request", "response"):
             out.append({"type": kind, "name": stem + kind.capitalize(), "apiKey": key, "validVersions": "0-4",
